@@ -233,6 +233,41 @@ pub fn vanishing_over_coset(num_coeffs: usize, degree: u64) -> Option<Vec<BlsSca
     Some(d.compute_vanishing_poly_over_coset(degree).evals)
 }
 
+pub fn matches_vanishing_over_coset(
+    num_coeffs: usize,
+    degree: u64,
+    evaluations: &[BlsScalar],
+) -> Option<bool> {
+    let d = EvaluationDomain::new(num_coeffs).ok()?;
+    Some(d.matches_vanishing_poly_over_coset(degree, evaluations))
+}
+
+pub fn matches_linear_over_coset(
+    num_coeffs: usize,
+    evaluations: &[BlsScalar],
+) -> Option<bool> {
+    let d = EvaluationDomain::new(num_coeffs).ok()?;
+    Some(d.matches_linear_poly_over_coset(evaluations))
+}
+
+pub fn domain_elements(num_coeffs: usize) -> Option<Vec<BlsScalar>> {
+    let d = EvaluationDomain::new(num_coeffs).ok()?;
+    Some(d.elements().collect())
+}
+
+pub fn interpolate(num_coeffs: usize, evaluations: &[BlsScalar]) -> Option<Vec<BlsScalar>> {
+    let d = EvaluationDomain::new(num_coeffs).ok()?;
+    Some(
+        crate::fft::Evaluations::from_vec_and_domain(evaluations.to_vec(), d)
+            .interpolate()
+            .to_vec(),
+    )
+}
+
+pub fn powers_of(x: BlsScalar, max_degree: usize) -> Vec<BlsScalar> {
+    crate::util::powers_of(&x, max_degree)
+}
+
 pub fn barycentric_eval(
     num_coeffs: usize,
     evaluations: &[BlsScalar],
